@@ -76,7 +76,7 @@ pub struct TreeRecipe {
     pub nodes: Vec<NodeRecipe>,
 }
 
-fn link_recipe() -> impl Strategy<Value = LinkRecipe> {
+pub fn link_recipe() -> impl Strategy<Value = LinkRecipe> {
     let leaf = prop_oneof![
         25 => any::<u16>().prop_map(LinkRecipe::RelTo),
         15 => any::<u16>().prop_map(LinkRecipe::AbsTo),
@@ -166,7 +166,7 @@ const ESCAPES: &[&[u8]] = &[
 
 const SPECIALS: &[&[u8]] = &[b".", b"/", b"//", b"/.", b"./", b"./.", b"/..", b"../.", b"a/../../b"];
 
-fn link_body(l: &LinkRecipe, dir: &B, myname: &[u8], existing: &[B], links: &[B]) -> Vec<u8> {
+pub fn link_body(l: &LinkRecipe, dir: &B, myname: &[u8], existing: &[B], links: &[B]) -> Vec<u8> {
     match l {
         LinkRecipe::RelTo(s) => {
             if existing.is_empty() {
@@ -377,7 +377,7 @@ fn lead_bytes(lead: u8) -> &'static [u8] {
     }
 }
 
-fn trail_bytes(trail: u8) -> &'static [u8] {
+pub fn trail_bytes(trail: u8) -> &'static [u8] {
     match trail {
         0..=6 => b"",
         7 => b"/",
@@ -560,4 +560,193 @@ pub fn open_flags() -> impl Strategy<Value = i32> {
         f | libc::O_NONBLOCK
     });
     prop_oneof![3 => opath, 6 => normal, 1 => extra]
+}
+
+// ---------------------------------------------------------------------------
+// Operations
+
+use crate::ops::Op;
+
+#[derive(Clone, Debug)]
+pub enum NewPath {
+    /// "<existing entry or root>/<fresh name>"
+    NewIn { sel: u16, name: u8, trail: u8 },
+    /// any path from the general recipe (mostly existing)
+    Any(PathRecipe),
+    /// "<existing>/<sub>/<sub>" (for mkdir_all)
+    Deep { sel: u16, names: Vec<u8>, trail: u8 },
+}
+
+const FRESH: [&str; 8] = ["new0", "new1", "a", "b", "z", "..", ".", "new0/x"];
+
+pub fn build_new_path(spec: &TreeSpec, r: &NewPath) -> B {
+    match r {
+        NewPath::Any(p) => build_path(spec, p),
+        NewPath::NewIn { sel, name, trail } => {
+            // mostly below directories (or links, which may lead to one)
+            let mut ps: Vec<B> = if name % 4 != 3 {
+                let mut v = spec.dirs();
+                v.extend(spec.entries.iter().filter(|(_, n)| matches!(n, Node::Symlink { .. })).map(|(p, _)| p.clone()));
+                v
+            } else {
+                spec.paths()
+            };
+            ps.push(B::new(""));
+            let base = ps[pick(*sel, ps.len())].clone();
+            let mut v = base.join(FRESH[*name as usize % FRESH.len()].as_bytes()).0;
+            v.extend_from_slice(trail_bytes(*trail));
+            B(v)
+        }
+        NewPath::Deep { sel, names, trail } => {
+            let mut ps = spec.paths();
+            ps.push(B::new(""));
+            let mut p = ps[pick(*sel, ps.len())].clone();
+            for n in names {
+                let comp: &[u8] = match n % 12 {
+                    0 => b"..",
+                    1 => b".",
+                    2 => b"",
+                    3 => b"a",
+                    4 => b"b",
+                    k => FRESH[(k as usize) % 2].as_bytes(),
+                };
+                let mut v = p.0.clone();
+                if !v.is_empty() {
+                    v.push(b'/');
+                }
+                v.extend_from_slice(comp);
+                p = B(v);
+            }
+            let mut v = p.0;
+            v.extend_from_slice(trail_bytes(*trail));
+            B(v)
+        }
+    }
+}
+
+pub fn new_path() -> impl Strategy<Value = NewPath> {
+    prop_oneof![
+        6 => (any::<u16>(), any::<u8>(), 0u8..10).prop_map(|(sel, name, trail)| NewPath::NewIn { sel, name, trail }),
+        3 => path_recipe().prop_map(NewPath::Any),
+        2 => (any::<u16>(), vec(any::<u8>(), 1..4), 0u8..10).prop_map(|(sel, names, trail)| NewPath::Deep { sel, names, trail }),
+    ]
+}
+
+#[derive(Clone, Debug)]
+pub enum OpRecipe {
+    Resolve(PathRecipe),
+    ResolveNofollow(PathRecipe),
+    Readlink(PathRecipe),
+    Open(PathRecipe, i32),
+    Mkdir(NewPath, u8),
+    Mkfile(NewPath, u8),
+    Mkfifo(NewPath, u8),
+    Mkchr(NewPath, u8),
+    Symlink(NewPath, LinkRecipe),
+    Hardlink(NewPath, PathRecipe),
+    CreateFile(NewPath, i32, u8),
+    MkdirAll(NewPath, u8),
+    RemoveFile(PathRecipe),
+    RemoveDir(PathRecipe),
+    RemoveAll(PathRecipe),
+    Rename(PathRecipe, NewPath, u8),
+}
+
+pub fn mode_of(k: u8) -> u32 {
+    match k % 8 {
+        0 => 0o644,
+        1 => 0o755,
+        2 => 0o700,
+        3 => 0o000,
+        4 => 0o1777,
+        5 => 0o4755,
+        6 => 0o2755,
+        _ => 0o600,
+    }
+}
+
+pub fn create_flags() -> impl Strategy<Value = i32> {
+    (0u8..3, proptest::bits::u8::masked(0x7f), 0u8..16).prop_map(|(acc, bits, opath)| {
+        let mut f = match acc {
+            0 => libc::O_RDONLY,
+            1 => libc::O_WRONLY,
+            _ => libc::O_RDWR,
+        };
+        let table = [libc::O_EXCL, libc::O_TRUNC, libc::O_APPEND, libc::O_NONBLOCK, libc::O_CLOEXEC, libc::O_DIRECTORY, libc::O_NOFOLLOW];
+        for (i, fl) in table.iter().enumerate() {
+            // O_DIRECTORY rarely: O_CREAT|O_DIRECTORY is EINVAL on current kernels
+            if bits & (1 << i) != 0 && (i != 5 || bits & 0x0f == 0x0f) {
+                f |= fl;
+            }
+        }
+        if opath == 0 {
+            f |= libc::O_PATH;
+        }
+        f | libc::O_NONBLOCK
+    })
+}
+
+pub fn rename_flags(k: u8) -> u32 {
+    match k % 8 {
+        0..=3 => 0,
+        4 => 1, // NOREPLACE
+        5 => 2, // EXCHANGE
+        6 => 4, // WHITEOUT
+        _ => 3, // invalid combination
+    }
+}
+
+pub fn op_recipe() -> impl Strategy<Value = OpRecipe> {
+    prop_oneof![
+        3 => path_recipe().prop_map(OpRecipe::Resolve),
+        2 => path_recipe().prop_map(OpRecipe::ResolveNofollow),
+        2 => path_recipe().prop_map(OpRecipe::Readlink),
+        4 => (path_recipe(), open_flags()).prop_map(|(p, f)| OpRecipe::Open(p, f)),
+        3 => (new_path(), any::<u8>()).prop_map(|(p, m)| OpRecipe::Mkdir(p, m)),
+        2 => (new_path(), any::<u8>()).prop_map(|(p, m)| OpRecipe::Mkfile(p, m)),
+        1 => (new_path(), any::<u8>()).prop_map(|(p, m)| OpRecipe::Mkfifo(p, m)),
+        1 => (new_path(), any::<u8>()).prop_map(|(p, m)| OpRecipe::Mkchr(p, m)),
+        3 => (new_path(), link_recipe()).prop_map(|(p, l)| OpRecipe::Symlink(p, l)),
+        2 => (new_path(), path_recipe()).prop_map(|(p, t)| OpRecipe::Hardlink(p, t)),
+        4 => (new_path(), create_flags(), any::<u8>()).prop_map(|(p, f, m)| OpRecipe::CreateFile(p, f, m)),
+        4 => (new_path(), any::<u8>()).prop_map(|(p, m)| OpRecipe::MkdirAll(p, m)),
+        3 => path_recipe().prop_map(OpRecipe::RemoveFile),
+        3 => path_recipe().prop_map(OpRecipe::RemoveDir),
+        3 => path_recipe().prop_map(OpRecipe::RemoveAll),
+        4 => (path_recipe(), new_path(), any::<u8>()).prop_map(|(s, d, f)| OpRecipe::Rename(s, d, f)),
+    ]
+}
+
+pub fn mutating_op_recipe() -> impl Strategy<Value = OpRecipe> {
+    op_recipe().prop_filter("mutating", |o| !matches!(o, OpRecipe::Resolve(_) | OpRecipe::ResolveNofollow(_) | OpRecipe::Readlink(_) | OpRecipe::Open(..)))
+}
+
+pub fn build_op(spec: &TreeSpec, r: &OpRecipe) -> Op {
+    match r {
+        OpRecipe::Resolve(p) => Op::Resolve { path: build_path(spec, p) },
+        OpRecipe::ResolveNofollow(p) => Op::ResolveNofollow { path: build_path(spec, p) },
+        OpRecipe::Readlink(p) => Op::Readlink { path: build_path(spec, p) },
+        OpRecipe::Open(p, f) => Op::Open { path: build_path(spec, p), flags: *f },
+        OpRecipe::Mkdir(p, m) => Op::Mkdir { path: build_new_path(spec, p), mode: mode_of(*m) },
+        OpRecipe::Mkfile(p, m) => Op::Mkfile { path: build_new_path(spec, p), mode: mode_of(*m) },
+        OpRecipe::Mkfifo(p, m) => Op::Mkfifo { path: build_new_path(spec, p), mode: mode_of(*m) },
+        OpRecipe::Mkchr(p, m) => Op::Mkchr { path: build_new_path(spec, p), mode: mode_of(*m) },
+        OpRecipe::Symlink(p, l) => {
+            let path = build_new_path(spec, p);
+            let (dir, name) = split_parent(&path);
+            let existing = spec.paths();
+            let links: Vec<B> = spec.entries.iter().filter(|(_, n)| matches!(n, Node::Symlink { .. })).map(|(p, _)| p.clone()).collect();
+            let body = link_body(l, &dir, &name, &existing, &links);
+            // the OUT token only makes sense in materialised trees
+            let body = replace_token(&body, OUT_TOKEN, b"/nonexistent-out");
+            Op::Symlink { path, target: B(body) }
+        }
+        OpRecipe::Hardlink(p, t) => Op::Hardlink { path: build_new_path(spec, p), target: build_path(spec, t) },
+        OpRecipe::CreateFile(p, f, m) => Op::CreateFile { path: build_new_path(spec, p), flags: *f, mode: mode_of(*m) },
+        OpRecipe::MkdirAll(p, m) => Op::MkdirAll { path: build_new_path(spec, p), mode: mode_of(*m) },
+        OpRecipe::RemoveFile(p) => Op::RemoveFile { path: build_path(spec, p) },
+        OpRecipe::RemoveDir(p) => Op::RemoveDir { path: build_path(spec, p) },
+        OpRecipe::RemoveAll(p) => Op::RemoveAll { path: build_path(spec, p) },
+        OpRecipe::Rename(s, d, f) => Op::Rename { src: build_path(spec, s), dst: build_new_path(spec, d), flags: rename_flags(*f) },
+    }
 }
